@@ -40,6 +40,14 @@ def reset_options():
     numpoly.set_options(**numpoly.get_options(defaults=True))
 
 
+class Extra:
+    """Result of an action plus extra observation fields for the event."""
+
+    def __init__(self, value, **fields):
+        self.value = value
+        self.fields = fields
+
+
 class Recorder:
     """One trace: SSA registers of real objects + the event log."""
 
@@ -51,6 +59,7 @@ class Recorder:
         self.events = []
         self.timeout_s = timeout_s
         self.meta = {}
+        self.state = {"cms": []}    # harness-side state actions may need (open context managers)
 
     # registers are 1-based in the log (TLA+ sequences)
     def obj(self, r: int):
@@ -84,6 +93,9 @@ class Recorder:
         except Exception as exc:  # noqa: BLE001 - every exception is an observation
             out, result = "raise", exc
         ms = (time.perf_counter() - t0) * 1000.0
+        extra = {}
+        if isinstance(result, Extra):
+            extra, result = result.fields, result.value
         if out == "ret":
             results = list(result) if isinstance(result, (tuple, list)) and params.get("_multi") else [result]
             res = [P.project(r) for r in results]
@@ -103,13 +115,14 @@ class Recorder:
         for k, v in params.items():
             if not k.startswith("_"):
                 ev[k] = v
+        ev.update(extra)
         self.events.append(ev)
         return new_regs
 
     def do(self, act: str, args=(), prop=None, targets=(), keep=True, **params):
         """Perform an action of the action table (harness/actions.py)."""
         from . import actions
-        fn = actions.perform(act, params)
+        fn = actions.perform(act, params, self.state)
         return self.call(act, fn, args, prop=prop, targets=targets, keep=keep, **params)
 
     def to_json(self) -> dict:
